@@ -137,7 +137,7 @@ def ruv_class(rng, K):
 def npix_of(m): return sum(1 for r in m for b in r if not b)
 
 def gen_inputs(tier, rng):
-    n = 1500 if tier == "thorough" else 60
+    n = 1500 if tier == "thorough" else 40
     util_ops = ["preload", "vispre", "vis", "image", "tmmpre", "tmm", "data", "recon"]
     for i in range(n):
         lattice = "quarter" if i % 2 else "sixteenth"
@@ -167,7 +167,7 @@ def gen_inputs(tier, rng):
             elif op == "recon":
                 d = {"op": op, "P": P, "TM": [[Sv(c) for c in rcv(rng, P)] for _ in range(K)], "s": Sv(rvals(rng, P))}
             yield d
-    m = 2000 if tier == "thorough" else 70
+    m = 2000 if tier == "thorough" else 50
     for i in range(m):
         g = rgeom(rng); npix = npix_of(g["m"])
         K = rng.choice([0, 1, 2, 3, 4, 6, 8]) if i % 7 == 0 else rng.choice([1, 2, 3, 4, 6, 8])
@@ -180,7 +180,7 @@ def gen_inputs(tier, rng):
         P = rng.choice([0, 1, 2, 3, 4]) if i % 5 == 0 else rng.choice([1, 2, 3])
         if npix > 0:
             yield dict(base, op="ttmm", preload=bool((i // 2) % 2), P=P, M=Sm([rvals(rng, P, sparse=True) for _ in range(npix)]))
-        if npix > 0 and K > 0:
+        if npix > 0 and K > 0 and (tier == "thorough" or i % 2 == 0):
             nobj = rng.choice([1, 1, 2, 3])
             objs = []
             for _ in range(nobj):
